@@ -464,6 +464,25 @@ theorem error_loc_in_failing_form {T : List Pos} {fuel₀ fuel : Nat} {d : Datum
       | some p => simp
     | some l => simp
 
+/-- A position OUTSIDE the failing form is reported only for an unbound variable or a non-procedure
+inside a procedure defined by an earlier form (or, through library definitions held by the state,
+for a cyclic / missing library or an error from reading a library source): every other fault is
+reported inside the form that failed. -/
+theorem outside_form_only_unbound_nonproc {fuel₀ fuel : Nat} {d : Datum} {env env' : Xform.SynEnv}
+    {s : Statement} {st st' : State} {k : Err} {l : Pos}
+    (hx : Xform.toStatement fuel₀ d env = (.ok s, env'))
+    (h : evalAst fuel st s = (.error (k, some l), st')) (hl : l ∉ locs d) :
+    k = .unbound ∨ k = .nonProcedure ∨ k = .cyclic ∨ k = .libNotFound ∨ LibReadErr (k, some l) := by
+  rcases error_kind_and_position h with h | ⟨l', hl', h⟩
+  · exact absurd ((xform_stmt_loc hx).1 l h.symm) hl
+  · cases hl'
+    rcases h with ⟨h, -⟩ | ⟨h, -⟩ | ⟨h | h, -⟩ | h
+    · exact Or.inl h
+    · exact Or.inr (Or.inl h)
+    · exact Or.inr (Or.inr (Or.inl h))
+    · exact Or.inr (Or.inr (Or.inr (Or.inl h)))
+    · exact Or.inr (Or.inr (Or.inr (Or.inr h)))
+
 /-- a fault inside a procedure defined by an earlier form: `(f)` at line 2, `f` defined at line 1
 as `(define (f) y)`; the position reported, 1:13, is a position of the state (`T`), i.e. of the
 earlier form of the same text -/
